@@ -24,7 +24,7 @@ import (
 func init() {
 	core.Register(&core.Property{
 		ID:   "C12",
-		Rule: "every element node of generated resources of every R4 type (declared type from its schema position: descriptor kind, structure-definition URL, value-set binding, presence of modifierExtension) x every type specifier in {all resource names, all complex datatype names, all primitive names, Element, BackboneElement, Resource, DomainResource, System.* names} with and without namespace: `x is T` must equal declared(x) <: T in the R4 hierarchy and `x as T` must return x itself iff so; elements supplied as %env values (all specifiers) and reached by indexed paths (seeded specifier sample incl. all supertypes); choice wrappers looked through; System values/literals use System types; unknown names/namespaces must be rejected by Compile. distinct_nontrivial = distinct (declared type, specifier) pairs evaluated with a true expected answer or a same-family false answer",
+		Rule: "every element node of generated resources of every R4 type (declared type from its schema position: descriptor kind, structure-definition URL, value-set binding, presence of modifierExtension) x every type specifier in {all resource names, all complex datatype names, all primitive names, Element, BackboneElement, Resource, DomainResource, System.* names} with and without namespace: `x is T` must equal declared(x) <: T in the R4 hierarchy and `x as T` must return x itself iff so; elements supplied as %env values (all specifiers) and reached by indexed paths (seeded specifier sample incl. all supertypes); choice wrappers looked through; System values/literals use System types; unknown names/namespaces must be rejected by Compile. computed values (39 forms x 30 elements) are System values whose is/as follow their type, conversion and operator results with their System type, selecting functions keep elements, nested resources through children(); distinct_nontrivial = distinct (declared type, specifier) pairs evaluated with a true expected answer or a same-family false answer",
 		Assumptions: []string{"R4 hierarchy: primitives specialise per the statement; a datatype or nested component carrying modifierExtension is a BackboneElement; Bundle, Binary, Parameters derive directly from Resource; Age/Count/Distance/Duration/MoneyQuantity/SimpleQuantity derive from Quantity",
 			"xhtml elements are only placed below Element (no specifier names the type itself); ReferenceId nodes are not typed by the model and are skipped"},
 		Run:    runC12,
